@@ -30,8 +30,10 @@ for _k, _attr in (("table", "name"), ("column", "name"), ("column", "type"), ("e
                   ("enumitem", "name")):
     for _reach in ("assign", "ctor"):
         CELLS.append(f"unset/{_k}.{_attr}/{_reach}")
-for _reach in ("never-added", "delete-obj", "delete-pos", "rejected-add"):
+for _reach in ("never-added", "delete-obj", "delete-pos", "rejected-add", "delete-equal-twin"):
     CELLS.append(f"index-detached/{_reach}")
+CELLS.append("endpoint-detached/delete-equal-twin/col1/block")
+CELLS.append("endpoint-detached/delete-equal-twin/col2/block")
 for _reach in ("never-attached", "delete-obj", "delete-pos"):
     for _side in ("col1", "col2"):
         for _inl in ("inline", "block"):
@@ -189,6 +191,32 @@ class C17Engine(C10.C10Engine):
                 raise Skip
             t, i = g.choice(cand)
             pos = m[t]["idxs"].index(i)
+            if reach == "delete-equal-twin":
+                # deleted through an equal but not identical Index object (index equality ignores the owner)
+                d_i = m[i]
+                subs = [real[s[1]] if s[0] == "col" else (C.Expression(s[1]) if s[0] == "expr" else s[1])
+                        for s in d_i["subjects"]]
+                twin = C.Index(subs, name=d_i["name"], unique=d_i["unique"], type=d_i["type"], pk=d_i["pk"],
+                               note=d_i["note"] or None, comment=d_i["comment"])
+                before = list(real[t].indexes)
+                try:
+                    real[t].delete_index(twin)
+                except Exception:
+                    raise Skip   # this implementation treats an equal twin as absent: nothing was detached
+                gone = [x for x in before if not any(x is y for y in real[t].indexes)]
+                if len(gone) != 1:
+                    raise Violation(PROP, "refuse", {"after": ctx, "cell": cell, "what": "delete_index(equal twin) "
+                                    f"removed {len(gone)} indexes"}, f"refuse:{cell}:removed-{len(gone)}")
+                gh = next(h for h in m[t]["idxs"] if real[h] is gone[0])
+                try:
+                    self.expect_raises(cell, "index.sql", lambda: gone[0].sql, AME, ctx)
+                finally:
+                    real[t].indexes[:] = [x for x in real[t].indexes if x is not gone[0]]
+                    gone[0].table = None
+                    real[t].add_index(gone[0])
+                    m[t]["idxs"].remove(gh)
+                    m[t]["idxs"].append(gh)
+                return
             if reach == "delete-obj":
                 if any(w.idx_content(x) == w.idx_content(i) for x in m[t]["idxs"] if x != i):
                     raise Skip
@@ -223,6 +251,44 @@ class C17Engine(C10.C10Engine):
                     if added:
                         rdb.refs[:] = [x for x in rdb.refs if x is not o]
                         o.database = None
+                return
+            if reach == "delete-equal-twin":
+                # the endpoint column is deleted through an equal column of a same-named twin table
+                cand = [r for r in d["refs"]]
+                if not cand:
+                    raise Skip
+                r = g.choice(cand)
+                c = g.choice(m[r][side])
+                t = m[c]["table"]
+                td = m[t]
+                if any(w.col_content(x) == w.col_content(c) for x in td["cols"] if x != c):
+                    raise Skip
+                twin_t = C.Table(td["name"], schema=td["schema"])
+                cd = m[c]
+                ty = cd["type"]
+                dv = cd["default"]
+                twin_c = C.Column(cd["name"], real[ty[1]] if isinstance(ty, list) else ty, unique=cd["unique"],
+                                  not_null=cd["not_null"], pk=cd["pk"], autoinc=cd["autoinc"],
+                                  default=C.Expression(dv[1]) if isinstance(dv, list) else dv, note=cd["note"] or None,
+                                  comment=cd["comment"], properties=dict(cd["properties"]) or None)
+                twin_t.add_column(twin_c)
+                before = list(real[t].columns)
+                try:
+                    real[t].delete_column(twin_c)
+                except Exception:
+                    raise Skip
+                gone = [x for x in before if not any(x is y for y in real[t].columns)]
+                if len(gone) != 1 or gone[0] is not real[c]:
+                    raise Skip
+                try:
+                    self.expect_raises(cell, "ref.sql", lambda: real[r].sql, TNF, ctx)
+                    self.expect_raises(cell, "ref.dbml", lambda: real[r].dbml, TNF, ctx)
+                finally:
+                    real[t].columns[:] = [x for x in real[t].columns if x is not real[c]]
+                    real[c].table = None
+                    real[t].add_column(real[c])
+                    m[t]["cols"].remove(c)
+                    m[t]["cols"].append(c)
                 return
             if reach == "aliased-list":
                 # the caller passes a table's own column list to the constructor, later a column is deleted
@@ -411,6 +477,8 @@ def run_ops(env: Env, wcomp: Dict[str, Any], ops: List[List[Any]]) -> Dict[str, 
                 eng.count("probe:recovered-after-heal")
             else:
                 eng.step(op, idx, False)
+    except C10.Abandon:
+        eng.count("abandoned:unexpected-accept")
     except Violation as v:
         res["violation"] = {"property": PROP, "oracle": v.oracle, "signature": v.signature, "detail": v.detail}
     res["counters"] = eng.counters
@@ -467,6 +535,8 @@ def generate(env: Env, rseed: int, thorough: bool):
                 except Violation as v:
                     raise Violation(PROP, "recovery", v.detail, "recovery-after:" + op[1].split("/")[0])
                 eng.count("probe:recovered-after-heal")
+    except C10.Abandon:
+        eng.count("abandoned:unexpected-accept")
     except Violation as v:
         if not ops or ops[-1] is not op:
             ops.append(op)
